@@ -225,10 +225,14 @@ class _MergedCtl(object):
         raise Abort()
 
 
+class _Diverged(Exception):
+    pass
+
+
 class AllSegmentations(object):
     """Explore every segmentation of ``stream`` for ``body(sock)``."""
 
-    def __init__(self, body, stream, make_sock=None, validate_every=16, max_transitions=2000000):
+    def __init__(self, body, stream, make_sock=None, validate_every=16, max_transitions=400000):
         self.body = body
         self.stream = stream
         self.make_sock = make_sock or (lambda ctl: ScriptSocket(stream, ctl))
@@ -243,6 +247,9 @@ class AllSegmentations(object):
         self.capped = False
         self.boundary = self._call.__code__
         self.tail = None
+        self.terminals = set()
+        self.max_outcomes = 4
+        self.diverged = False
 
     def _call(self, sock):
         return self.body(sock)
@@ -257,8 +264,21 @@ class AllSegmentations(object):
             return None
 
     def explore(self, prefix=()):
+        """All terminal observations.  Stops early (``diverged``) as soon as more than ``max_outcomes``
+        different observations have been seen: for a segmentation-independence oracle two are already a
+        violation, and code that is not segmentation independent makes the state space explode."""
+        try:
+            return self._explore(prefix)
+        except _Diverged:
+            self.diverged = True
+            return frozenset(self.terminals)
+
+    def _explore(self, prefix=()):
         obs = self.run(prefix)
         if self.hit is None:
+            self.terminals.add(obs)
+            if len(self.terminals) > self.max_outcomes:
+                raise _Diverged()
             return frozenset([obs])
         key, avail = self.hit
         if key in self.memo:
@@ -272,7 +292,7 @@ class AllSegmentations(object):
             if self.transitions > self.max_transitions:
                 self.capped = True
                 break
-            res |= self.explore(prefix + (take,))
+            res |= self._explore(prefix + (take,))
         self.memo[key] = frozenset(res)
         return self.memo[key]
 
